@@ -1,5 +1,6 @@
-(* Proofs about model/ResetMap.v: every mapping of the token map was registered by the peer for that
-   connection, so a datagram is matched to a connection only by one of its registered tokens. *)
+(* Proofs about model/ResetMap.v: in every reachable state every mapping of the token map was
+   registered by the peer for that connection, so a datagram is matched to a connection only by one
+   of its registered tokens; the executable judgement accepts every run of the model. *)
 From SQ Require Import lib.Base gen.Gen_C06 model.Nonce model.RxPipeline model.ResetMap proofs.RxPipelineProofs.
 Local Open Scope N_scope.
 
@@ -23,21 +24,16 @@ Qed.
 Lemma sound_remove : forall m regs t, sound m regs -> sound (snd (map_remove t m)) regs.
 Proof. intros m regs t H t' i' Hin. apply H. eapply map_remove_subset. exact Hin. Qed.
 
-Lemma sound_remove_all : forall ts m regs, sound m regs ->
-  sound (fold_left (fun m t => snd (map_remove (tok_bytes t) m)) ts m) regs.
-Proof. induction ts as [|t ts IH]; intros m regs H; cbn [fold_left]; [exact H|]. apply IH. apply sound_remove. exact H. Qed.
+Lemma sound_remove_all : forall ts m regs, sound m regs -> sound (remove_all ts m) regs.
+Proof.
+  unfold remove_all. induction ts as [|t ts IH]; intros m regs H; cbn [fold_left]; [exact H|].
+  apply IH. apply sound_remove. exact H.
+Qed.
 
 Lemma sound_weaken : forall m regs x, sound m regs -> sound m (x :: regs).
 Proof. intros m regs x H t i Hin. right. apply H. exact Hin. Qed.
 
-Lemma regs_existsb : forall regs i t, In (i, t) regs ->
-  existsb (fun e : N * list N => (fst e =? i) && eqb_bytes t (snd e)) regs = true.
-Proof.
-  intros regs i t H. apply existsb_exists. exists (i, t). split; [exact H|].
-  cbn [fst snd]. now rewrite N.eqb_refl, eqb_bytes_refl.
-Qed.
-
-(* reset_only_with_peer_token on the real-registry model: a match names a token registered for that connection *)
+(* reset_only_with_peer_token on the real-registry model *)
 Theorem lookup_sound : forall m regs d i, sound m regs ->
   fst (on_stateless_reset m d) = Some i -> exists t, last16 d = Some t /\ In (i, t) regs.
 Proof.
@@ -49,3 +45,164 @@ Lemma lookup_keeps_sound : forall m regs d, sound m regs -> sound (snd (on_state
 Proof.
   intros m regs d H. unfold on_stateless_reset. destruct (last16 d); [|exact H]. apply sound_remove. exact H.
 Qed.
+
+(* ---- tokens of the registered ids ---- *)
+Lemma toks_of_app : forall a b, toks_of (a ++ b) = toks_of a ++ toks_of b.
+Proof. intros. unfold toks_of. apply flat_map_app. Qed.
+
+Lemma toks_of_map : forall f l, (forall e, i_tok (f e) = i_tok e) -> toks_of (map f l) = toks_of l.
+Proof.
+  intros f l H. induction l as [|e l IH]; [reflexivity|]. cbn [map]. unfold toks_of in *. cbn [flat_map].
+  rewrite H, IH. reflexivity.
+Qed.
+
+Lemma toks_of_filter : forall f l t, In t (toks_of (filter f l)) -> In t (toks_of l).
+Proof.
+  intros f l t. unfold toks_of. rewrite !in_flat_map. intros (e & He & Ht). apply filter_In in He as [He _].
+  exists e. auto.
+Qed.
+
+Lemma retire_ready_tok : forall rp e, i_tok (retire_ready rp e) = i_tok e.
+Proof. intros rp e. unfold retire_ready. destruct (_ && _); reflexivity. Qed.
+
+Lemma take_new_spec : forall l e l', take_new l = Some (e, l') ->
+  toks_of l' = toks_of l /\ (forall t, i_tok e = Some t -> In t (toks_of l)).
+Proof.
+  induction l as [|x r IH]; intros e l' H; cbn [take_new] in H; [discriminate|].
+  destruct (i_st x) eqn:Es.
+  - injection H as <- <-. split; [reflexivity|].
+    intros t Ht. unfold toks_of. cbn [flat_map]. rewrite Ht. left. reflexivity.
+  - destruct (take_new r) as [[y r']|] eqn:Et; [|discriminate]. injection H as <- <-.
+    destruct (IH _ _ eq_refl) as [H1 H2]. unfold toks_of in *. cbn [flat_map]. rewrite H1. split; [reflexivity|].
+    intros t Ht. apply in_or_app. right. auto.
+  - destruct (take_new r) as [[y r']|] eqn:Et; [|discriminate]. injection H as <- <-.
+    destruct (IH _ _ eq_refl) as [H1 H2]. unfold toks_of in *. cbn [flat_map]. rewrite H1. split; [reflexivity|].
+    intros t Ht. apply in_or_app. right. auto.
+  - destruct (take_new r) as [[y r']|] eqn:Et; [|discriminate]. injection H as <- <-.
+    destruct (IH _ _ eq_refl) as [H1 H2]. unfold toks_of in *. cbn [flat_map]. rewrite H1. split; [reflexivity|].
+    intros t Ht. apply in_or_app. right. auto.
+Qed.
+
+(* ---- connection table ---- *)
+Lemma length_set_conn : forall l i x, length (set_conn i l x) = length l.
+Proof. induction l as [|h t IH]; intros [|i] x; cbn [set_conn length]; auto. Qed.
+
+Lemma nth_error_set_conn : forall l i x j k, nth_error (set_conn i l x) j = Some k ->
+  (j = i /\ k = x) \/ (j <> i /\ nth_error l j = Some k).
+Proof.
+  induction l as [|h t IH]; intros [|i] x [|j] k H; cbn [set_conn nth_error] in H; try discriminate.
+  - left. injection H as <-. auto.
+  - right. split; [discriminate|exact H].
+  - right. split; [discriminate|exact H].
+  - apply IH in H. destruct H as [[-> ->]|[Hn H]]; [left; auto|right; split; [congruence|exact H]].
+Qed.
+
+Definition toks_ok (cs : list conn) (regs : list (N * list N)) : Prop :=
+  forall i k, nth_error cs i = Some k -> forall t, In t (toks_of (c_ids k)) -> In (N.of_nat i, tok_bytes t) regs.
+
+Lemma toks_ok_set : forall cs regs i x, toks_ok cs regs ->
+  (forall t, In t (toks_of (c_ids x)) -> In (N.of_nat i, tok_bytes t) regs) ->
+  toks_ok (set_conn i cs x) regs.
+Proof.
+  intros cs regs i x H Hx j k Hn t Ht. apply nth_error_set_conn in Hn. destruct Hn as [[-> ->]|[_ Hn]]; [auto|].
+  eapply H; eauto.
+Qed.
+
+Lemma toks_ok_weaken : forall cs regs x, toks_ok cs regs -> toks_ok cs (x :: regs).
+Proof. intros cs regs x H i k Hn t Ht. right. eapply H; eauto. Qed.
+
+Definition inv (s : st) (nconn : N) (regs : list (N * list N)) : Prop :=
+  nconn = N.of_nat (length (conns s)) /\ sound (tmap s) regs /\ toks_ok (conns s) regs.
+
+Lemma get_open_nth : forall s c k, get_open s c = Some k -> nth_error (conns s) (N.to_nat c) = Some k.
+Proof.
+  unfold get_open. intros s c k H. destruct (nth_error (conns s) (N.to_nat c)) as [k'|]; [|discriminate].
+  destruct (c_open k'); [|discriminate]. congruence.
+Qed.
+
+Lemma regs_existsb : forall regs i t, In (i, t) regs ->
+  existsb (fun e : N * list N => (fst e =? i) && eqb_bytes t (snd e)) regs = true.
+Proof.
+  intros regs i t H. apply existsb_exists. exists (i, t). split; [exact H|].
+  cbn [fst snd]. now rewrite N.eqb_refl, eqb_bytes_refl.
+Qed.
+
+(* in every reachable state a datagram matches connection i only by a token registered for i, and
+   the executable judgement accepts the model's output *)
+Lemma judge_run_ops : forall ops s nconn regs, inv s nconn regs ->
+  judge_ops nconn regs ops (run_ops s ops) = true.
+Proof.
+  induction ops as [|o ops IH]; intros s nconn regs (Hn & Hs & Ht); [reflexivity|].
+  cbn [run_ops]. destruct o as [flag tok|c seq rpt tok|c|c|d|c pn|c pn]; cbn [step].
+  - (* open *)
+    cbn [app judge_ops]. apply IH. repeat split; cbn [conns tmap].
+    + rewrite app_length, Nat2N.inj_add, <- Hn. reflexivity.
+    + destruct flag; [|exact Hs]. apply sound_insert; [apply sound_weaken; exact Hs|].
+      rewrite <- Hn. left. reflexivity.
+    + intros i k Hi t Hin.
+      destruct (Nat.lt_ge_cases i (length (conns s))) as [Hlt|Hge].
+      * rewrite nth_error_app1 in Hi by exact Hlt. destruct flag; [right|]; eapply Ht; eauto.
+      * rewrite nth_error_app2 in Hi by exact Hge.
+        destruct (i - length (conns s))%nat as [|m] eqn:Em; [|destruct m; discriminate].
+        cbn [nth_error] in Hi. injection Hi as <-. cbn [c_ids] in Hin. unfold toks_of in Hin. cbn [flat_map i_tok] in Hin.
+        destruct flag; [|destruct Hin].
+        destruct Hin as [<-|[]]. left. replace i with (length (conns s)) by lia. rewrite <- Hn. reflexivity.
+  - (* NEW_CONNECTION_ID *)
+    destruct (get_open s c) as [k|] eqn:Eg.
+    + cbn [app judge_ops Z.eqb]. apply get_open_nth in Eg. apply IH. repeat split; cbn [conns tmap].
+      * now rewrite length_set_conn.
+      * apply sound_weaken. exact Hs.
+      * apply toks_ok_set; [apply toks_ok_weaken; exact Ht|].
+        intros t Hin. cbn [c_ids] in Hin. rewrite toks_of_app, toks_of_map in Hin by apply retire_ready_tok.
+        apply in_app_or in Hin as [Hin|Hin].
+        -- right. eapply Ht; eauto.
+        -- unfold toks_of in Hin. cbn [flat_map] in Hin. rewrite retire_ready_tok in Hin. cbn [i_tok app] in Hin.
+           destruct Hin as [<-|[]]. left. rewrite N2Nat.id. reflexivity.
+    + cbn [app judge_ops Z.eqb]. apply IH. repeat split; assumption.
+  - (* take an id into use *)
+    destruct (get_open s c) as [k|] eqn:Eg; [|cbn [app judge_ops]; apply IH; repeat split; assumption].
+    apply get_open_nth in Eg.
+    destruct (take_new (c_ids k)) as [[e ids]|] eqn:Et; [|cbn [app judge_ops]; apply IH; repeat split; assumption].
+    destruct (take_new_spec _ _ _ Et) as [H1 H2].
+    cbn [app judge_ops]. apply IH. repeat split; cbn [conns tmap].
+    + now rewrite length_set_conn.
+    + destruct (i_tok e) as [t|] eqn:Ee; [|exact Hs]. apply sound_insert; [exact Hs|].
+      specialize (Ht _ _ Eg t (H2 t eq_refl)). rewrite N2Nat.id in Ht. exact Ht.
+    + apply toks_ok_set; [exact Ht|]. intros t Hin. cbn [c_ids] in Hin. rewrite H1 in Hin. eapply Ht; eauto.
+  - (* connection dropped *)
+    destruct (get_open s c) as [k|] eqn:Eg; [|cbn [app judge_ops]; apply IH; repeat split; assumption].
+    cbn [app judge_ops]. apply IH. repeat split; cbn [conns tmap].
+    + now rewrite length_set_conn.
+    + apply sound_remove_all. exact Hs.
+    + apply toks_ok_set; [exact Ht|]. intros t []. 
+  - (* datagram *)
+    destruct (on_stateless_reset (tmap s) d) as [r m'] eqn:Eo. cbn [app judge_ops].
+    assert (Hm : sound m' regs) by (replace m' with (snd (on_stateless_reset (tmap s) d)) by (rewrite Eo; reflexivity);
+                                     apply lookup_keeps_sound; exact Hs).
+    assert (G : judge_ops nconn regs ops (run_ops {| conns := conns s; tmap := m' |} ops) = true)
+      by (apply IH; repeat split; assumption).
+    rewrite G, andb_true_r. destruct r as [i|]; [|reflexivity].
+    destruct (lookup_sound (tmap s) regs d i Hs) as (t & Hl & Hin); [rewrite Eo; reflexivity|].
+    unfold Nz. replace (Z.of_N (i + 1) =? 0)%Z with false by (symmetry; apply Z.eqb_neq; lia).
+    replace (0 <? Z.of_N (i + 1))%Z with true by (symmetry; apply Z.ltb_lt; lia). cbn [andb].
+    rewrite Hl. unfold zN. rewrite N2Z.id. replace (i + 1 - 1) with i by lia. apply regs_existsb. exact Hin.
+  - (* a packet with RETIRE_CONNECTION_ID frames *)
+    destruct (get_open s c) as [k|] eqn:Eg; [|cbn [app judge_ops]; apply IH; repeat split; assumption].
+    apply get_open_nth in Eg. cbn [app judge_ops]. apply IH. repeat split; cbn [conns tmap]; auto.
+    + now rewrite length_set_conn.
+    + apply toks_ok_set; [exact Ht|]. intros t Hin. cbn [c_ids] in Hin.
+      rewrite toks_of_map in Hin by (intros e; destruct (is_pend_ret e); reflexivity). eapply Ht; eauto.
+  - (* acknowledged *)
+    destruct (get_open s c) as [k|] eqn:Eg; [|cbn [app judge_ops]; apply IH; repeat split; assumption].
+    apply get_open_nth in Eg. cbn [app judge_ops]. apply IH. repeat split; cbn [conns tmap].
+    + now rewrite length_set_conn.
+    + apply sound_remove_all. exact Hs.
+    + apply toks_ok_set; [exact Ht|]. intros t Hin. cbn [c_ids] in Hin. apply toks_of_filter in Hin. eapply Ht; eauto.
+Qed.
+
+Lemma inv_init : inv (mks [] []) 0 [].
+Proof. repeat split; [intros t i []|intros i k H; destruct i; discriminate]. Qed.
+
+Theorem judge_run : forall c, judge c (run c) = true.
+Proof. intros c. unfold judge, run. apply judge_run_ops. apply inv_init. Qed.
+
